@@ -384,12 +384,23 @@ func qletters(l, q []byte) []alphabet.QLetter {
 }
 
 func (m *mCont) buildRow(r mRow, quality bool) seq.Sequence {
+	// now and then slices with room to spare, as appending leaves them (an empty sequence that kept its array too)
+	spare := 0
+	if len(r.L)%4 == 0 {
+		spare = 6 + len(r.Name)
+	}
 	if quality {
-		s := linear.NewQSeq(r.Name, qletters(r.L, r.Q), m.alpha(), alphabet.Sanger)
+		ql := make([]alphabet.QLetter, len(r.L), len(r.L)+spare)
+		copy(ql, qletters(r.L, r.Q))
+		s := linear.NewQSeq(r.Name, nil, m.alpha(), alphabet.Sanger)
+		s.Seq = ql // the constructors copy their argument: the roomy slice goes into the exported field
 		s.Offset, s.Strand = r.Start, seq.Strand(r.Strand)
 		return s
 	}
-	s := linear.NewSeq(r.Name, alphabet.BytesToLetters(append([]byte(nil), r.L...)), m.alpha())
+	ls := make([]alphabet.Letter, len(r.L), len(r.L)+spare)
+	copy(ls, alphabet.BytesToLetters(append([]byte(nil), r.L...)))
+	s := linear.NewSeq(r.Name, nil, m.alpha())
+	s.Seq = ls
 	s.Offset, s.Strand = r.Start, seq.Strand(r.Strand)
 	return s
 }
